@@ -9,6 +9,7 @@ import (
 	"encoding/json"
 	"fmt"
 	"runtime"
+	"strconv"
 	"strings"
 	"sync"
 	"time"
@@ -55,10 +56,15 @@ func buildExprRow(row *Row) (src string, vars [][2]interface{}, obj map[string]i
 		}
 		idx := i
 		i++
-		if _, ok := v.Literal(); !ok && p == 'l' {
+		if _, ok := v.Literal(); !ok && (p == 'l' || p == 'z') {
 			p = 'v'
 		}
 		switch p {
+		case 'z':
+			// a non-negative integer written with a leading zero: the same number
+			if v.Tag == "I" && v.I >= 0 {
+				return "0" + strconv.FormatInt(v.I, 10), true
+			}
 		case 'f':
 			if h, ok := v.Host(); ok {
 				name := fmt.Sprintf("F%c", 'a'+idx)
@@ -118,6 +124,14 @@ func replayExprRow(c *Check, row *Row) {
 	// the two modes must agree whatever the expectation (C03)
 	if outs[0].PrepErr == nil && outs[1].PrepErr == nil && outs[0].class() != outs[1].class() {
 		c.disagree(&Disagreement{Kind: "opt-diff", Script: src, Mode: "", Expected: outs[1].class(), Got: outs[0].class(), Row: row.Raw})
+	}
+	// an all-literal row once more with its integers written with a leading zero ("010" is ten)
+	if row.Prov != "" && strings.Trim(row.Prov, "l") == "" && !exp.IsSkip() {
+		zrow := *row
+		zrow.Prov = strings.Repeat("z", len(row.Prov))
+		if zsrc, _, _ := buildExprRow(&zrow); zsrc != src {
+			replayExprRow(c, &zrow)
+		}
 	}
 }
 
